@@ -57,6 +57,10 @@ import (
 //   burst:<q>:<sizes>  p sends one PUBLISH per letter of <sizes> (s = payload is the tag, l = tag
 //                      padded beyond the subscriber's write buffer size) in ONE network segment;
 //                      the broker runs only after the last one (C12: backlog in a's outbound queue)
+//                      With arg "wpend=N" (Capabilities.MaximumClientWritesPending) a burst longer
+//                      than N overflows a's outbound queue: the broker reports the surplus messages
+//                      as dropped (hook event); the model marks them Dropped ("may be missing") and
+//                      judges a later transmission of such a message as its first one
 //   !alt:<c0.c1...>    re-executes the PREVIOUS op with the given choices at the map
 //                      iteration points of Inflight.GetAll (C12; see qosRun)
 
@@ -94,6 +98,7 @@ type qMsg struct {
 	burst    int    // >0: number of the burst (one network segment of the publisher) it was sent in
 	relTx    int    // connection during whose establishment the PUBREL was resent
 	wfault   bool   // an injected write fault fired on a's connection while the message was queued (its first transmission may be what was lost)
+	dropWhy  string // the broker reported the message as dropped for a (hook event): write-queue-full | packet-ids-exhausted
 }
 
 type qIn struct {
@@ -188,6 +193,9 @@ func (q *qModel) String() string {
 		}
 		if m.wfault {
 			b.WriteString("wq ")
+		}
+		if m.dropWhy != "" {
+			b.WriteString("d:" + m.dropWhy + " ")
 		}
 		if m.relTx == q.conn && m.relTx != 0 {
 			b.WriteString("rt ")
@@ -325,7 +333,11 @@ func (q *qModel) recv(pks []ref.Packet) {
 				continue
 			}
 			switch m.st {
-			case qQueued:
+			case qQueued, qDropped:
+				// qDropped (QoS > 0): the broker reported the message as dropped for a (write queue
+				// full, packet ids exhausted) and transmits it all the same: this is its first
+				// transmission, judged like any other
+				wasDropped := m.st == qDropped
 				m.st, m.pid, m.lastConn = qSent, p.PacketID, q.conn
 				if q.connStep {
 					m.connTx = q.conn
@@ -371,6 +383,22 @@ func (q *qModel) recv(pks []ref.Packet) {
 					if o.seq < m.seq && o.qos == m.qos && o.st == qQueued {
 						ord := q.ordShape(m, o)
 						q.find("c12", "order:"+m.how+":"+ord, "first transmission of %s (published #%d) precedes that of %s (published #%d, still not transmitted); trigger=%s", m.tag, m.seq, o.tag, o.seq, q.trigger)
+					}
+				}
+				if wasDropped {
+					// a message may be missing (the broker said so), but when it does arrive, it must
+					// not arrive after the first transmission of a message published after it. (While
+					// it counted as dropped the loop above, run for the later messages, skipped it.)
+					why := m.dropWhy
+					if why == "" {
+						why = "other"
+					}
+					q.count("first_tx_after_reported_drop")
+					for _, o := range q.msgs {
+						if o.seq > m.seq && o.qos == m.qos && o != m && o.how != "" {
+							q.find("c12", "order:"+m.how+":"+q.ordShape(o, m)+":late-first-transmission-after-reported-drop:"+why, "%s (published #%d) was reported as dropped for a (%s) and is transmitted for the first time now, after the first transmission of %s (published #%d); trigger=%s", m.tag, m.seq, why, o.tag, o.seq, q.trigger)
+							break
+						}
 					}
 				}
 				q.count("first_tx_" + m.how)
@@ -526,6 +554,7 @@ type qCfg struct {
 	closure string
 	ticks   int
 	wf      int
+	wpend   int   // >0: Capabilities.MaximumClientWritesPending (capacity of a client's outbound queue)
 	rms     []int // Receive Maximum values a may declare when it reconnects (ops rc0:<rm> ...)
 }
 
@@ -553,7 +582,7 @@ func parseQCfg(prop, arg string) qCfg {
 		take: argInt(arg, "take", 0) == 1, apubs: argInt(arg, "apubs", 0), aids: argInt(arg, "aids", 2), abase: argInt(arg, "abase", 0), aqos: argStr(arg, "aqos", "12"),
 		adup: argInt(arg, "adup", 0), refuse: argStr(arg, "refuse", ""), rpubs: argInt(arg, "rpubs", 0), wbuf: argInt(arg, "wbuf", 0),
 		bursts: argStr(arg, "bursts", ""), nbursts: argInt(arg, "nbursts", 1), maps: argInt(arg, "maps", 0) == 1, closure: argStr(arg, "closure", ""), ticks: argInt(arg, "ticks", 0),
-		wf: argInt(arg, "wf", 0),
+		wf: argInt(arg, "wf", 0), wpend: argInt(arg, "wpend", 0),
 	}
 }
 
@@ -683,6 +712,9 @@ func qosExec(cfg qCfg, ops []string, alts [][]int, prefix []int) (explore.HistRe
 		if cfg.srm > 0 {
 			c.ReceiveMaximum = uint16(cfg.srm)
 		}
+		if cfg.wpend > 0 {
+			c.MaximumClientWritesPending = int32(cfg.wpend)
+		}
 	}}
 	if cfg.wbuf > 0 {
 		wcfg.Opts = func(o *mqtt.Options) { o.ClientNetWriteBufferSize = cfg.wbuf }
@@ -736,9 +768,16 @@ func qosExec(cfg qCfg, ops []string, alts [][]int, prefix []int) (explore.HistRe
 				continue
 			}
 			if e.Name == "OnPublishDropped" || e.Name == "OnPacketIDExhausted" {
-				if m := q.byTag(e.Tag); m != nil && m.st == qQueued {
+				if m := q.byTag(qTag(e.Tag)); m != nil && m.st == qQueued {
 					m.st = qDropped
 					q.count("reported_drops")
+					if m.qos > 0 {
+						m.dropWhy = "packet-ids-exhausted"
+						if e.Name == "OnPublishDropped" {
+							m.dropWhy = "write-queue-full"
+							q.count("qos12_dropped_on_full_write_queue")
+						}
+					}
 				}
 			}
 		}
@@ -861,6 +900,21 @@ func qosExec(cfg qCfg, ops []string, alts [][]int, prefix []int) (explore.HistRe
 			}
 		}
 		q.nrefConn, q.ndupConn = 0, 0
+		if sp && !clean && q.conn > 1 {
+			// non-vacuity (C12): the session is resumed after a QoS>0 message found a's outbound queue
+			// full and a message published after it was transmitted
+			for _, m := range q.msgs {
+				if m.dropWhy != "write-queue-full" || m.st != qDropped {
+					continue
+				}
+				for _, o := range q.msgs {
+					if o.seq > m.seq && o.qos == m.qos && o.how != "" {
+						q.count("resumptions_after_write_queue_overflow_and_later_delivery")
+						break
+					}
+				}
+			}
+		}
 		// expectations for the resumed session, from the states before this connection
 		type exp struct {
 			m  *qMsg
@@ -970,6 +1024,7 @@ func qosExec(cfg qCfg, ops []string, alts [][]int, prefix []int) (explore.HistRe
 				q.count("publisher_not_acknowledged")
 			}
 			if q.connected {
+				scanEvents() // a message reported as dropped during the step may be missing
 				q.recv(h.poll("a"))
 			}
 		case "ack", "rec", "comp":
@@ -1304,6 +1359,7 @@ func qosExec(cfg qCfg, ops []string, alts [][]int, prefix []int) (explore.HistRe
 						q.count("bursts_backlogged_large_behind_small")
 					}
 				}
+				scanEvents() // messages reported as dropped during the step may be missing
 				q.recv(pks)
 			}
 			if qos == 2 {
